@@ -51,13 +51,31 @@ WriteEntries(r) ==
     {[k |-> r.op.items[j].k, s |-> r.info.s, t |-> r.op.items[j].t, v |-> r.op.items[j].v]
         : j \in 1..Len(r.op.items)}
 
-GhostStep(a, r) ==
+\* keys hit by a listed known finding in step i (KnownFindings.tla)
+StepHazard(i) ==
+    LET r == Rec[i] IN
+    IF r.op.op = "flush" THEN FlushHazard(Pre(i), r.op.w)
+    ELSE IF r.op.op \in {"compact", "major"} /\ "choice" \in DOMAIN r.info /\ r.info.choice[1] = 1
+    THEN MergeHazard(Pre(i), {r.info.choice[j] : j \in 4..Len(r.info.choice)}, r.op.w)
+    ELSE {}
+
+GhostStep(a, i) ==
+    LET r == Rec[i] IN
     IF ~IsOk(r) THEN a ELSE
     CASE r.op.op = "reset"  -> AInit
       [] r.op.op = "write"  -> AWrite(a, WriteEntries(r))
       [] r.op.op = "rotate" -> ARotate(a)
-      [] r.op.op = "flush"  -> AFlush(a)
+      [] r.op.op = "flush"  -> AHazard(AFlush(a), StepHazard(i))
+      [] r.op.op \in {"compact", "major"} -> AHazard(a, StepHazard(i))
       [] r.op.op = "reopen" -> AReopen(a)
+      [] r.op.op = "clear"  -> AClear(a, r.info.s0)
+      [] r.op.op = "droprange" ->
+            LET b == [lo |-> r.op.lo, hi |-> r.op.hi] IN
+            IF DropRangeNoop(b) THEN a
+            ELSE ADropRange(a, {k \in KeysT : InBounds(k, b)}, r.info.s0)
+      [] r.op.op = "ingest" ->
+            AIngest(a, {[k |-> r.op.items[j].k, s |-> r.info.g, t |-> r.op.items[j].t,
+                         v |-> r.op.items[j].v] : j \in 1..Len(r.op.items)})
       [] OTHER -> a
 
 -----------------------------------------------------------------------------
@@ -106,6 +124,9 @@ Expected(i) ==
       [] r.op.op = "flush"   -> OpFlush(pre, r.op.w)
       [] r.op.op \in {"compact", "major"} -> CompactExpected(i)
       [] r.op.op = "reopen"  -> OpReopen(pre)
+      [] r.op.op = "clear"   -> OpClear(pre)
+      [] r.op.op = "droprange" -> OpDropRange(pre, [lo |-> r.op.lo, hi |-> r.op.hi])
+      [] r.op.op = "ingest"  -> OpIngest(pre, r.op.items)
       [] r.op.op = "snap"    -> OpOpenSnap(pre)
       [] r.op.op = "release" -> OpReleaseSnap(pre, r.op.S)
       [] OTHER -> pre
@@ -126,11 +147,13 @@ ChoiceLegal(i) ==
 (***************************************************************************)
 ObsGetOk(r, a) ==
     \A j \in 1..Len(r.obs.get) :
-        \A k \in KeysT : r.obs.get[j].v[k] = Oracle(a, k, r.obs.get[j].S)
+        \A k \in KeysT : Defined(a, k, r.obs.get[j].S)
+                              => r.obs.get[j].v[k] = Oracle(a, k, r.obs.get[j].S)
 
 ObsScanOk(r, a) ==
     \A j \in 1..Len(r.obs.scan) :
-        r.obs.scan[j].r = OracleScan(a, r.obs.scan[j].S, FullBounds)
+        LET S == r.obs.scan[j].S IN
+        OnlyDefined(r.obs.scan[j].r, a, S) = OnlyDefined(OracleScan(a, S, FullBounds), a, S)
 
 \* the model's read algorithm on the recorded structure agrees with the real read
 ModelReadAgrees(r) ==
@@ -147,7 +170,7 @@ MetaOk(r) ==
         /\ x.meta.min = TMinKey(tb) /\ x.meta.max = TMaxKey(tb)
         /\ x.meta.lo = TMinSeq(tb) /\ x.meta.hi = TMaxSeq(tb)
         /\ x.meta.n = Len(x.e)
-        /\ x.meta.tomb = Cardinality({q \in 1..Len(x.e) : x.e[q].t = "T"})
+        /\ x.meta.tomb = Cardinality({q \in 1..Len(x.e) : x.e[q].t \in {"T", "W"}})
         /\ x.meta.wtomb = Cardinality({q \in 1..Len(x.e) : x.e[q].t = "W"})
 
 \* C18: reported marks equal what is stored (self-consistency on the recorded state)
@@ -156,6 +179,12 @@ HiOk(r) ==
     /\ r.obs.hi.pers = HiPersisted(st)
     /\ r.obs.hi.mem = HiMemtable(st)
     /\ r.obs.hi.all = MaxNat(HiPersisted(st) + 1, HiMemtable(st) + 1) - 1
+
+\* a read of a hazard key differs from what the ordered map (ignoring haz) would return
+KnownHit(r, a) ==
+    {k \in KeysT \cap a.haz : \E j \in 1..Len(r.obs.get) :
+        LET S == r.obs.get[j].S b == [a EXCEPT !.haz = {}] IN
+        Defined(b, k, S) /\ r.obs.get[j].v[k] # Oracle(b, k, S)}
 
 Say(kind, prop, i, what) == PrintT(ToJson(<<kind, prop, i, what>>))
 
@@ -169,6 +198,7 @@ CheckLine(i, a) ==
     ELSE
     LET st == Post(i) IN
     /\ (ObsGetOk(r, a)          \/ Say("VIOL", "READ", i, r.obs.get))
+    /\ (KnownHit(r, a) = {}     \/ Say("KNOWN", "C13-weak-shadow", i, KnownHit(r, a)))
     /\ (ObsScanOk(r, a)         \/ Say("VIOL", "SCAN", i, r.obs.scan))
     /\ (PStructureSound(st)     \/ Say("VIOL", "STRUCT", i, st.hist))
     /\ (MetaOk(r.st)            \/ Say("VIOL", "META", i, r.st.tbls))
@@ -190,7 +220,7 @@ Init == l = 0 /\ A = AInit
 Next ==
     /\ l < Len(Rec)
     /\ l' = l + 1
-    /\ A' = GhostStep(A, Rec[l + 1])
+    /\ A' = GhostStep(A, l + 1)
     /\ CheckLine(l + 1, A')
 
 Spec == Init /\ [][Next]_<<l, A>>
